@@ -302,6 +302,13 @@ def selection(ctx):
             for st in cb.stmts(b):
                 lhs = st['lhs']
                 if lhs['l'] == 1 or (lhs['p'] and lhs['p'][0] == '*' and cb.local_ty(lhs['l']) == '&mut bool'):
+                    if cb.local_ty(lhs['l']) == '&mut bool' and (st['rv']['k'] != 'use' or 'c' not in st['rv']['a']):
+                        n += 1
+                        ctx.bad(sk.key, 'flag assigned a non-constant',
+                                'the all-hybridized flag is overwritten at line %d with a computed value: it must only ever be '
+                                'cleared (set to false) when a selected key is not hybridized, otherwise the last key visited decides '
+                                'the flavour' % st['ln'], cb.where(st['ln']))
+                        continue
                     if st['rv']['k'] != 'use' or 'c' not in st['rv']['a'] or st['rv']['a']['c'].get('ty') != 'bool':
                         continue
                     n += 1
@@ -346,3 +353,11 @@ def selection(ctx):
             if e.kind == 'explicit' and e.variant == 'Kem':
                 rej = True
     ctx.check(rej, hb.key, 'classic key -> Err', 'h_encaps no longer rejects a classic public key', 'Err(Kem) on the Classic arm', hb.where())
+
+
+@rule('C11', 'wire', configs=('default', 'p256'))
+def wire(ctx):
+    """'...through rekey, refresh and serialization': flavour tags and hints round-trip."""
+    from . import c13
+    c13.restricted(ctx, r'(core::RightSecretKey|core::RightPublicKey|core::Encapsulations|dimension::Attribute|core::XEnc)$',
+                   [c13.agree, c13.fields])
